@@ -48,6 +48,7 @@ class TreeSpec(Spec):
 
     def run(self, bt, plan):
         sim = self.execute(bt, plan)
+        self._last_sim = sim
         info = {"stop_" + str(sim.stop_reason): 1, "driver_" + plan["driver"]: 1, "observations": sim.nobs, "ops_executed": sim.nops_done, "trades": sim.model.ntrades, "transfers": sim.model.ntransfers, "root_updates": sim.root_updates}
         for k, v in sim.inconclusive.items():
             info["inconclusive_" + k] = v
@@ -122,7 +123,62 @@ class C03(TreeSpec):
     id = "C03"
     engine_every = 4
     judged = ("C03",)
-    own_checks = ("index_start", "index_recurrence", "root_flows", "rows_flows")
+    own_checks = ("index_start", "index_recurrence", "root_flows", "rows_flows", "scale_invariance")
+    rule = TreeSpec.rule + "; every 5th run is a capital-scaling twin: fractional positions, size-proportional costs, the same plan with capital (and hence every flow and amount) x k must give the same index (1e-9 relative)"
+
+    def gen(self, r, tier, i):
+        if i % 5 != 2:
+            return TreeSpec.gen(self, r, tier, i)
+        plan = drive_tree.gen_plan(r, "accounting", tier, knobs=dict(fi=0.0, coupon=0.0))
+        plan["cfg"]["integer"] = False
+        if not commod.proportional(plan["cfg"]["comm"]):
+            plan["cfg"]["comm"] = r.choice([{"kind": "zero"}, {"kind": "prop", "rate": 0.001}])
+        ops = []
+        for o in plan["ops"]:
+            if o["op"] == "alloc" and o.get("mode") in ("tiny", "units", "close_ulp"):
+                o = dict(o, mode="frac")
+            ops.append(o)
+        plan["ops"] = ops
+        plan["twin_scale"] = r.choice([2.0, 4.0, 3.0, 0.1, 7.5])
+        return plan
+
+    def run(self, bt, plan):
+        res = TreeSpec.run(self, bt, plan)
+        k = plan.get("twin_scale")
+        if not k or res["viol"]:
+            return res
+        sim_a = self._last_sim
+        if sim_a.stop_reason is not None:
+            return res
+        p2 = dict(plan, cfg=dict(plan["cfg"], capital=plan["cfg"]["capital"] * k))
+        sim_b = drive_tree.run_plan(bt, p2, set())
+        res["fired"]["capital_scale_twin"] = 1
+        if sim_b.stop_reason is not None or sim_b.viol:
+            res["info"]["inconclusive_twin_stopped"] = 1
+            return res
+        band = 1e-6 * (abs(plan["cfg"]["capital"]) + 1)
+        if sim_a.model.run_min_equity is not None and sim_a.model.run_min_equity < band:
+            res["info"]["inconclusive_twin_near_zero_equity"] = 1
+            return res
+        if sim_a.near_close or sim_b.near_close:
+            # some allocate asked for -value up to rounding: whether the exact close-out shortcut or the budget search
+            # (which also covers the fee) runs is decided by an ulp - threshold band, not judged
+            res["info"]["inconclusive_twin_close_out_threshold"] = 1
+            return res
+        if max(sim_a.model.peak_ever, sim_b.model.peak_ever / k) > 1e3 * (abs(plan["cfg"]["capital"]) + 1):
+            # capital was spread by weights computed on a float-residue base: astronomically large offsetting trades,
+            # whose size is pure rounding noise (and not scale-invariant)
+            res["info"]["inconclusive_twin_residue_amplification"] = 1
+            return res
+        a = sim_a.series(sim_a.root, "prices")
+        b = sim_b.series(sim_b.root, "prices")
+        if len(a) != len(b):
+            return res
+        for i in range(len(a)):
+            if abs(a[i] - b[i]) > 1e-9 * (abs(a[i]) + 1):
+                res["viol"].append({"check": "scale_invariance", "detail": "capital x %r: index on row %d is %r instead of %r" % (k, i, b[i], a[i]), "flags": {}})
+                break
+        return res
 
 
 @register
@@ -138,7 +194,38 @@ class C08(TreeSpec):
     id = "C08"
     judged = ("C08",)
     profile = "schedule"
-    own_checks = ("idempotence", "freshness", "append_only", "beyond_now")
+    own_checks = ("idempotence", "freshness", "append_only", "beyond_now", "schedule_equivalence")
+    rule = TreeSpec.rule + "; every 3rd run is a flush-schedule twin: the same op history is executed once with a full observation (refreshing reads of every node) after every operation and once with none; the final history frames of every node must be byte-identical"
+
+    def run(self, bt, plan):
+        res = TreeSpec.run(self, bt, plan)
+        sim_a = self._last_sim
+        if plan.get("twin_flush") and not res["viol"]:
+            p2 = dict(plan, cfg=dict(plan["cfg"], flush="lazy"))
+            sim_b = drive_tree.run_plan(bt, p2, set())
+            res["fired"]["flush_schedule_twin"] = 1
+            cap = abs(plan["cfg"]["capital"]) + 1
+            if sim_a.stop_reason != sim_b.stop_reason or sim_a.stop_reason not in (None, "next_tick_bad_price", "next_tick_nan_coupon"):
+                res["info"]["inconclusive_twin_stopped"] = 1
+            elif max(sim_a.model.peak_ever, sim_b.model.peak_ever) > 1e3 * cap:
+                res["info"]["inconclusive_twin_residue_amplification"] = 1
+            elif sim_a.model.run_min_equity is not None and sim_a.model.run_min_equity < 1e-6 * cap and not plan["cfg"]["fi"]:
+                # an extra update may legitimately observe a transient bankruptcy
+                res["info"]["inconclusive_twin_near_zero_equity"] = 1
+            else:
+                ha = drive_engine.histories(sim_a.root)
+                hb = drive_engine.histories(sim_b.root)
+                d = drive_engine.diff_histories(ha, hb)  # cell-wise (NaN == NaN, -0.0 == 0.0)
+                if d is not None:
+                    res["viol"].append({"check": "schedule_equivalence", "detail": "observing every node after every operation vs never observing: %s" % d, "flags": {}})
+        return res
+
+    def gen(self, r, tier, i):
+        plan = TreeSpec.gen(self, r, tier, i)
+        if i % 3 == 1 and plan["driver"] == "tree":
+            plan["twin_flush"] = True
+            plan["cfg"]["obs_price"] = False
+        return plan
 
 
 @register
